@@ -84,6 +84,22 @@ def check_round(inp):
       for a, b in zip(jax.tree_util.tree_leaves(new.params), jax.tree_util.tree_leaves(before)):
         if not np.allclose(np.asarray(a), b):
           return 'a round without examples changed the parameters under plain SGD'
+    if inp.get('backends'):
+      # same round under the other backends (the algorithm binds its backend when it is constructed)
+      from fedjax.core import for_each_client as fec
+      for be in inp['backends']:
+        with fec.for_each_client_backend(be):
+          alg_b = fed_avg.federated_averaging(grad_fn, copt, sopt, hp)
+          try:
+            new_b, diag_b = alg_b.apply(st, clients)
+          except Exception as e:  # pylint: disable=broad-except
+            return f'round {r + 1} under the {be} backend: {type(e).__name__}: {str(e)[:200]}'
+        for a, b in zip(jax.tree_util.tree_leaves(new_b.params), jax.tree_util.tree_leaves(ref.params)):
+          if not np.allclose(np.asarray(a), np.asarray(b), rtol=2e-4, atol=2e-5):
+            return (f'round {r + 1}, client sizes {sizes} (in this order), {be} backend: params {np.asarray(a)} differ from the '
+                    f'definition {np.asarray(b)} (the result depends on the execution backend)')
+        if sorted(diag_b) != sorted(c[0] for c in clients):
+          return f'round {r + 1} under the {be} backend: diagnostics keys {sorted(diag_b)}'
     st = new
     ref = fed_avg.ServerState(new.params, new.opt_state)
 
@@ -94,6 +110,9 @@ def sweep_round(tier, seed):
       yield dict(rounds=[[3, 0, 5], [0, 0], [4, 1]], batch_size=2, copt=copt, sopt=sopt, seed=seed)
       yield dict(rounds=[[1], [], [2, 7]], batch_size=3, copt=copt, sopt=sopt, seed=seed + 1, epochs=2)
   yield dict(rounds=[[5, 4]], batch_size=4, copt='sgd', sopt='sgd', seed=seed, drop=True)
+  # all three backends; full batches only (pmap stacks the batches of a block), clients listed small to large and shuffled
+  yield dict(rounds=[[2, 4, 6], [4, 6, 2, 0]], batch_size=2, copt='sgd', sopt='sgd', seed=seed, backends=['debug', 'pmap'])
+  yield dict(rounds=[[6, 2, 4]], batch_size=2, copt='momentum', sopt='adam', seed=seed + 2, backends=['pmap'])
 
 
 CHECKERS = {'round': (check_round, sweep_round)}
